@@ -5,8 +5,6 @@
 #include <math.h>
 static FILE *vt_fp;
 static int vt_first;
-static const void *vt_objs[4096];
-static int vt_nobj;
 static long vt_nlive;
 static FILE *fp(void) {
     if (!vt_fp) { const char *n = getenv("VT_TRACE"); vt_fp = n ? fopen(n, "a") : stderr; if (!vt_fp) vt_fp = stderr; }
@@ -44,11 +42,9 @@ void vt_arr_dbl(const double *a, long n) {
     fprintf(fp(), "]}");
 }
 void vt_obj(const void *p) {
-    int i; sep();
-    if (!p) { fprintf(fp(), "{\"t\":\"o\",\"v\":0}"); return; }
-    for (i = 0; i < vt_nobj; i++) if (vt_objs[i] == p) break;
-    if (i == vt_nobj && vt_nobj < 4096) vt_objs[vt_nobj++] = p;
-    fprintf(fp(), "{\"t\":\"o\",\"v\":%d}", i + 1);
+    /* object identity is the address; the harness renumbers per scenario */
+    sep();
+    fprintf(fp(), "{\"t\":\"o\",\"v\":%llu}", (unsigned long long)(size_t)p);
 }
 void vt_end(void) { fprintf(fp(), "]}\n"); fflush(fp()); }
 void vt_note(const char *text) { fprintf(fp(), "{\"ev\":\"Note\",\"f\":\"%s\",\"vals\":[]}\n", text); fflush(fp()); }
